@@ -1085,6 +1085,10 @@ def check_list(ctx, classes):
                 return False, 'a member of an entry is not parsed as a ' \
                     'single check (%s)' % (t[1] if t[0] == '?' else t[0])
             a = t[1]
+            if (isinstance(a, ast.Name) and a.id == entry) or isinstance(
+                    a, ast.Constant):
+                # the bare-string entry itself / the constant stand-in
+                return True, ''
             src = elem_src(a)
             if src is None or not derived_from_entry(src):
                 return False, 'the text parsed (%s) is not a member of the ' \
